@@ -233,6 +233,7 @@ TEMPLATES = {
     'enum_type': _T('TYPE\n  c : (red', ('opt', ', green'), ')', ('opt', ' := red'), ';\nEND_TYPE\n'),
     'struct_type': _T('TYPE\n  s : STRUCT\n    a : INT', ('opt', ' := 1'), ';\n', ('opt', '    q : BOOL := TRUE;\n'), '  END_STRUCT;\nEND_TYPE\n'),
     'string_type': _T('TYPE\n  st : ', ('alt', ['STRING', 'WSTRING']), ('opt', '[10]'), ';\nEND_TYPE\n'),
+    'enum_alias_type': _T('TYPE\n  c : (red, green) := red;\n  d : ', ('alt', ['c', '(red, green)', '(green, red)']), ('alt', ['', ' := red', ' := green']), ';\nEND_TYPE\n'),
     'alias_type': _T('TYPE\n  al : ', ('alt', ['INT', 'REAL', 'other']), ('opt', ' := 1'), ';\nEND_TYPE\n'),
     'var_block': _T('FUNCTION_BLOCK fb\n', ('alt', ['VAR', 'VAR_INPUT', 'VAR_OUTPUT', 'VAR_IN_OUT', 'VAR_EXTERNAL', 'VAR_TEMP']), ('alt', ['', ' RETAIN', ' CONSTANT', ' NON_RETAIN']), '\n  x : INT', ('opt', ' := 5'), ';\nEND_VAR\nEND_FUNCTION_BLOCK\n'),
     'var_kinds': _FB([('alt', ['  v : c := red;\n', '  v : c := c#red;\n', '  v : ARRAY[1..3] OF INT;\n', '  v : ARRAY[1..2] OF INT := [1, 2];\n', '  v : INT(1..5);\n', '  v : STRING[5] := \'ab\';\n', '  v : callee;\n', '  v : callee := (in1 := TRUE);\n',
